@@ -24,7 +24,7 @@ ASSUMPTIONS = [
 ]
 MONITORS = ("status answers vs os.walk listing; FaultyFS counters prove both lookup strategies ran; wrappers on ObjectDBIndex.update/clear "
             "log what was indexed; index content vs upload log + present directory objects after every step")
-REQUIRED_COUNTERS = ["histories_with_second_store_index", "second_store_queries", "expanded_transfer_steps", "dir_vanished_mid_transfer_steps", "expanded_status_queries_with_index", "handle_wrote_before_foreign_writes", "source_lost_files", "unprotected_valid_objects", "two_handle_histories", "status_queries", "strategy/per-object-exists", "strategy/traverse", "compare_status_calls", "expanded_queries",
+REQUIRED_COUNTERS = ["stores_opened_through_non_canonical_path", "stores_of_another_algorithm", "many_indexed_directories_cases", "histories_with_second_store_index", "second_store_queries", "expanded_transfer_steps", "dir_vanished_mid_transfer_steps", "expanded_status_queries_with_index", "handle_wrote_before_foreign_writes", "source_lost_files", "unprotected_valid_objects", "two_handle_histories", "status_queries", "strategy/per-object-exists", "strategy/traverse", "compare_status_calls", "expanded_queries",
                      "histories", "history_steps", "index_checks", "index_updates_seen", "index_clears_seen", "external_deletions",
                      "failed_transfer_steps", "indexed_dir_exists_checked", "store/local", "store/remote", "store/base"]
 
@@ -56,18 +56,31 @@ def run_shard(ctx):
         cls = rng.choice(["remote", "remote", "local", "base"])
         res.count(f"store/{cls}")
         root, croot, sroot = os.path.join(d, "store"), os.path.join(d, "treecache"), os.path.join(d, "src")
-        odb, ffs = mk_store(rng, root, cls)
+        # the store may be one of another algorithm (objects named by sha256; no directory objects there), and may be opened through
+        # a legal non-canonical spelling of its path
+        algo = "sha256" if rng.random() < 0.15 else "md5"
+        spelling = rng.choice(["canonical"] * 4 + ["trailing-slash", "dot", "double-slash"])
+        opened = {"canonical": root, "trailing-slash": root + "/", "dot": d + "/./store", "double-slash": d + "//store"}[spelling]
+        if spelling != "canonical":
+            res.count("stores_opened_through_non_canonical_path")
+        if algo != "md5":
+            res.count("stores_of_another_algorithm")
+        if cls == "remote":
+            ffs = FaultyFS(page_size=rng.choice([4, 10, 25, 100, None]), jobs=rng.choice([1, 4]))
+            odb = env.remote_odb(opened, fs=ffs, hash_name=algo)
+        else:
+            odb, ffs = env.odb_of_class(cls, opened, hash_name=algo), None
         cache = env.local_odb(croot)
         blobs = {}
         for _ in range(rng.randrange(2, 25)):
             b = gen.small_content(rng) + bytes([rng.randrange(256)])
-            blobs[H("md5", b)] = b
-        for _ in range(rng.choice([0, 0, 1, 2, 4, 8])):
+            blobs[H(algo, b)] = b
+        for _ in range(rng.choice([0, 0, 1, 2, 4, 8]) if algo == "md5" else 0):
             b = gen.mined_00(rng)
             blobs[H("md5", b)] = b
         dirs = {}
         foids = sorted(blobs)
-        for _ in range(rng.randrange(0, 4)):
+        for _ in range(rng.randrange(0, 4) if algo == "md5" else 0):
             listing = {f"{gen.name(rng, odd=0.2)}{i}": o for i, o in enumerate(rng.sample(foids, rng.randrange(1, min(6, len(foids)) + 1)))}
             raw = canonical_dir_bytes(listing)
             dirs[H("md5", raw) + DIR_SUFFIX] = (listing, raw)
@@ -78,12 +91,12 @@ def run_shard(ctx):
             fp = os.path.join(d, "own-write")
             with open(fp, "wb") as f:
                 f.write(first)
-            odb.add(fp, env.localfs(), H("md5", first))
-            blobs[H("md5", first)] = first
-            present.add(H("md5", first))
+            odb.add(fp, env.localfs(), H(algo, first))
+            blobs[H(algo, first)] = first
+            present.add(H(algo, first))
             res.count("handle_wrote_before_foreign_writes")
         if rng.random() < 0.4:
-            blobs[H("md5", b"")] = b""  # the empty file's object is an object like any other
+            blobs[H(algo, b"")] = b""  # the empty file's object is an object like any other
         for o, b in blobs.items():
             if o in present:
                 continue
@@ -101,7 +114,7 @@ def run_shard(ctx):
                 present.add(o)
         os.makedirs(root, exist_ok=True)
         # second store for compare_status
-        src = env.local_odb(sroot)
+        src = env.local_odb(sroot, hash_name=algo)
         src_present = set()
         for o, b in blobs.items():
             if rng.random() < 0.6:
@@ -114,10 +127,10 @@ def run_shard(ctx):
         os.makedirs(sroot, exist_ok=True)
 
         for _q in range(3):
-            universe = sorted(blobs) + sorted(dirs) + [H("md5", b"absent%d" % i) for i in range(6)]
+            universe = sorted(blobs) + sorted(dirs) + [H(algo, b"absent%d" % i) for i in range(6)]
             q = rng.sample(universe, min(len(universe), rng.choice([2, 3, 5, 10, 30, 60])))
             expanded = rng.random() < 0.35
-            ids = {env.HI("md5", o) for o in q}
+            ids = {env.HI(algo, o) for o in q}
             denoted = set(q)
             if expanded:
                 res.count("expanded_queries")
@@ -386,7 +399,51 @@ def run_shard(ctx):
         env.reset_staging()
         ctx.drop(d)
 
+    def many_dirs(case=0, rng=None):
+        """an index that knows more directories than any validation batch: some of them have gone from the store"""
+        d = ctx.fresh("md")
+        root, croot = os.path.join(d, "store"), os.path.join(d, "treecache")
+        odb, ffs = mk_store(rng, root, "remote")
+        cache = env.local_odb(croot)
+        ndirs = rng.choice([99, 100, 101, 130, 260])
+        index = ObjectDBIndex(os.path.join(d, "idx"), "dest")
+        dirs = {}
+        for i in range(ndirs):
+            fo = H("md5", b"file of dir %d" % i)
+            raw = canonical_dir_bytes({f"f{i}": fo})
+            doid = H("md5", raw) + DIR_SUFFIX
+            dirs[doid] = fo
+            put(root, doid, raw)
+            put(croot, doid, raw)
+            put(root, fo, b"file of dir %d" % i)
+        index.update(list(dirs), list(dirs.values()))
+        res.evaluated()
+        res.count("many_indexed_directories_cases")
+        order = sorted(dirs)
+        gone = set(rng.sample(order, rng.randrange(2, 6)))
+        for o in gone:
+            os.chmod(os.path.join(root, o[:2], o[2:]), 0o644)
+            os.unlink(os.path.join(root, o[:2], o[2:]))
+        q = set(rng.sample(order, 10)) | set(rng.sample(sorted(gone), 2))
+        res.nontrivial("many-dirs", ndirs, sorted(gone), sorted(q))
+        st = status(odb, {env.HI("md5", o) for o in q}, index=index, cache_odb=cache, jobs=rng.choice([1, 4]))
+        objs, _t, _s = list_store(root)
+        for h in st.exists:
+            if h.isdir and h.value not in objs:
+                res.violation("directory-reported-existing-but-absent/many-indexed-directories",
+                              f"index of {ndirs} directories, {len(gone)} gone from the store: {h.value} reported existing", case=case, detail={"ndirs": ndirs, "gone": len(gone)})
+                break
+        stale = sorted(o for o in index.dir_hashes() if o not in objs)
+        if stale:
+            res.violation("stale-index-not-cleared/many-indexed-directories", f"after a validating query the index still holds {len(stale)} directories that are not in the store",
+                          case=case, detail={"ndirs": ndirs})
+        index.close()
+        ctx.drop(d)
+
     for case, rng in ctx.cases(ctx.plan["n"]):
+        if case % 200 == 7:
+            ctx.guard(case, many_dirs, case, rng)
+            continue
         if case % 3 == 0:
             ctx.guard(case, history, case, rng)
         else:
